@@ -119,6 +119,12 @@ def shipped_bases():
                 if not m:
                     continue
                 sig = [s.strip() for s in m.group(1).split(",") if s.strip()]
+                body = txt[txt.find("{") + 1 : txt.rfind("}")]
+                idents = set(re.findall(r"[A-Za-z][A-Za-z0-9_\-]*", body))
+                # atoms outside the declared signature (e.g. a lower-case 'top') put a base
+                # outside the world semantics over its signature: not used as workload
+                if not idents <= set(sig) | {"Top", "Bottom"}:
+                    continue
                 if 1 <= len(sig) <= 6 and "inconsistent" not in f:
                     out.append((os.path.relpath(f, REPO), sig, txt))
         _SHIPPED = out
